@@ -571,12 +571,12 @@ impl Database {
         crate::verif::yield_point("inc_value:map:write");
         let (value, version) = {
             let mut db = self.map.write().unwrap();
-            match i32::from_str_radix(
-                &db.get(&key.to_string())
-                    .unwrap_or(&Value::from("0"))
-                    .to_string(),
-                10,
-            ) {
+            // A removed key that is still waiting to be deleted from disk counts as absent
+            let current_text = match db.get(&key.to_string()) {
+                Some(value) if value.state != ValueStatus::Deleted => value.to_string(),
+                _ => String::from("0"),
+            };
+            match i32::from_str_radix(&current_text, 10) {
                 Ok(current) => {
                     let next = match current.checked_add(inc) {
                         Some(next) => next.to_string(),
